@@ -5,9 +5,112 @@
 
 package actor
 
+// ---------------------------------------------------------------------------
+// Effect log: what the engine does to the outside, as ghost events appended by
+// boundary calls (user code, interface methods, trusted engine entry points).
+
+//@ event Broadcast(e Ref, msg Iface)
+//@ event ProcStart(proc Iface)
+//@ event RegAdd(r Ref, id Str, proc Iface)
+//@ event ProcSend(proc Iface, target Ref, msg Iface, sender Ref)
+
+// pidof(proc): the PID a Processer answers with. Processer.PID() is assumed
+// to be a stable function of the processer value (every implementation in the
+// repository returns a field written once at construction).
+//@ ghost func pidof(Iface) Ref as *PID
+
+//@ func (Processer).PID()
+//@   abstract
+//@   pure
+//@   ensures result == pidof(self) && result != nil
+
+//@ func (Processer).Start()
+//@   abstract
+//@   modifies heap except private
+//@   emits ProcStart(self)
+
+//@ func (Processer).Send(target, msg, sender)
+//@   abstract
+//@   modifies heap except private
+//@   emits ProcSend(self, target, msg, sender)
+
 // Boundary of the remote package: handing a decoded message to the local
 // engine. Trusted here (assumed: returns normally, writes nothing the stream
 // reader reads again); its own behaviour is the subject of C01/C09.
 //@ func (*Engine).SendLocal(pid, msg, sender)
 //@   trusted
 //@   modifies
+
+// Publishing an event: one Broadcast entry in the effect log (the routing of
+// the event to the stream actor is C09/C12).
+//@ func (*Engine).BroadcastEvent(msg)
+//@   trusted
+//@   modifies
+//@   emits Broadcast(e, msg)
+
+// ---------------------------------------------------------------------------
+// Registry (C10): a map id -> Processer under one RWMutex. old(...) in a
+// clause of a function that takes r.mu refers to the state at the moment the
+// lock was acquired: every critical section is one atomic transition of the
+// abstract map.
+
+//@ private H$actor.Registry, H$actor.process, H$actor.Context, H$actor.Inbox, H$actor.Engine, H$actor.PID
+
+//@ guarded Registry(r) by mu footprint r.lookup, mapof(r.lookup)
+//@ lockinv[C10.inv] r.lookup != nil
+
+//@ func (*Registry).add(proc)
+//@   props C10
+//@   requires r != nil && r.engine != nil && !isnil(proc)
+//@   atunlock[C10.add.dup-untouched] old(has(r.lookup, pidof(proc).ID)) ==> forallS("Str", id, has(r.lookup, id) == old(has(r.lookup, id)) && r.lookup[id] == old(r.lookup[id]))
+//@   atunlock[C10.add.insert-dom] !old(has(r.lookup, pidof(proc).ID)) ==> forallS("Str", id, has(r.lookup, id) == (old(has(r.lookup, id)) || id == pidof(proc).ID))
+//@   atunlock[C10.add.insert-val] !old(has(r.lookup, pidof(proc).ID)) ==> r.lookup[pidof(proc).ID] == proc
+//@   atunlock[C10.add.insert-kept] !old(has(r.lookup, pidof(proc).ID)) ==> forallS("Str", id, id != pidof(proc).ID ==> r.lookup[id] == old(r.lookup[id]))
+//@   ghost at mapupdate#1: emit RegAdd(r, key, value)
+//@   atunlock[C10.add.regadd-iff] (old(has(r.lookup, pidof(proc).ID)) ==> loglen == entry(loglen)) && (!old(has(r.lookup, pidof(proc).ID)) ==> loglen == entry(loglen) + 1 && log[entry(loglen)] == RegAdd(r, pidof(proc).ID, proc))
+//@   ensures[C10.add.dup-event] old(has(r.lookup, pidof(proc).ID)) ==> loglen == entry(loglen) + 1 && log[entry(loglen)] == Broadcast(r.engine, ActorDuplicateIdEvent{PID: pidof(proc)})
+//@   ensures[C10.add.winner-started] !old(has(r.lookup, pidof(proc).ID)) ==> loglen == entry(loglen) + 2 && log[entry(loglen)] == RegAdd(r, pidof(proc).ID, proc) && log[entry(loglen) + 1] == ProcStart(proc)
+
+//@ func (*Registry).Remove(pid)
+//@   props C10
+//@   requires r != nil && pid != nil
+//@   atunlock[C10.remove.only] forallS("Str", id, has(r.lookup, id) == (old(has(r.lookup, id)) && id != pid.ID))
+//@   atunlock[C10.remove.kept] forallS("Str", id, r.lookup[id] == old(r.lookup[id]))
+
+//@ func (*Registry).get(pid)
+//@   props C10
+//@   requires r != nil
+//@   ensures[C10.get.nil] pid == nil ==> isnil(result)
+//@   ensures[C10.get.hit] pid != nil && old(has(r.lookup, pid.ID)) ==> result == old(r.lookup[pid.ID])
+//@   ensures[C10.get.miss] pid != nil && !old(has(r.lookup, pid.ID)) ==> isnil(result)
+
+//@ func (*Registry).getByID(id)
+//@   props C10
+//@   requires r != nil
+//@   ensures[C10.getbyid.hit] old(has(r.lookup, id)) ==> result == old(r.lookup[id])
+//@   ensures[C10.getbyid.miss] !old(has(r.lookup, id)) ==> isnil(result)
+
+//@ func (*Registry).GetPID(kind, id)
+//@   props C10
+//@   requires r != nil
+//@   ghost at call getByID#1 before: assert[C10.getpid.key] arg1 == kind + pidSeparator + id
+//@   ghost at call getByID#1: got = result
+//@   ensures[C10.getpid.hit] !isnil(got) ==> result == pidof(got)
+//@   ensures[C10.getpid.miss] isnil(got) ==> result == nil
+
+//@ func (*Context).GetPID(id)
+//@   props C10
+//@   requires c != nil && c.engine != nil && c.engine.Registry != nil
+//@   ghost at call getByID#1 before: assert[C10.ctx-getpid.key] arg1 == id && arg0 == c.engine.Registry
+//@   ghost at call getByID#1: got = result
+//@   ensures[C10.ctx-getpid.hit] !isnil(got) ==> result == pidof(got)
+//@   ensures[C10.ctx-getpid.miss] isnil(got) ==> result == nil
+
+// SpawnProc: exactly the effect of Registry.add (register-or-report), then the
+// PID of the processer that was handed in.
+//@ func (*Engine).SpawnProc(p)
+//@   props C10
+//@   requires e != nil && e.Registry != nil && e.Registry.engine != nil && !isnil(p)
+//@   ghost at call add#1 before: assert[C10.spawnproc.add] arg0 == e.Registry && arg1 == p
+//@   ensures[C10.spawnproc.pid] result == pidof(p)
+//@   ensures[C10.spawnproc.effects] (loglen == entry(loglen) + 2 && log[entry(loglen)] == RegAdd(e.Registry, pidof(p).ID, p) && log[entry(loglen) + 1] == ProcStart(p)) || (loglen == entry(loglen) + 1 && log[entry(loglen)] == Broadcast(e.Registry.engine, ActorDuplicateIdEvent{PID: pidof(p)}))
